@@ -96,7 +96,12 @@ func randAPI(rng *rand.Rand, plat string, size int, tag string) *Scenario {
 		}
 		return out
 	}
-	types := []string{"u8", "i8", "u16", "i16", "u32", "i32", "u64", "i64", "f32", "f64", "st"}
+	// f32 (also inside the record type) is only read back right after it was written with the same
+	// type: encoding/binary converts float32 through float64, which quiets signalling NaN patterns
+	// that arbitrary device bytes may form.
+	types := []string{"u8", "i8", "u16", "i16", "u32", "i32", "u64", "i64", "f64", "f32", "st"}
+	anyBits := map[string]bool{"u8": true, "i8": true, "u16": true, "i16": true, "u32": true, "i32": true,
+		"u64": true, "i64": true, "f64": true, "arr": true}
 	within := false // true: ranges stay inside their buffer
 	pickRange := func(b int) (int, int, string) {
 		limit := sizes[b]
@@ -171,6 +176,11 @@ func randAPI(rng *rand.Rand, plat string, size int, tag string) *Scenario {
 			sc.Ops = append(sc.Ops, Op{Op: "h2d", B: b + 1, Off: off, N: n, Ty: ty, Seed: seed, Ctx: ctx})
 		case x < 13:
 			off, n, ty := pickRange(b)
+			if !anyBits[ty] {
+				// typed round trip
+				seed++
+				sc.Ops = append(sc.Ops, Op{Op: "h2d", B: b + 1, Off: off, N: n, Ty: ty, Seed: seed, Ctx: ctx})
+			}
 			sc.Ops = append(sc.Ops, Op{Op: "d2h", B: b + 1, Off: off, N: n, Ty: ty, Ctx: ctx})
 		case x < 16 && canKern:
 			op := Op{Op: "kern", Ctx: ctx, GPU: 1 + rng.Intn(sc.GPUs)}
@@ -241,10 +251,11 @@ func randAPI(rng *rand.Rand, plat string, size int, tag string) *Scenario {
 					}
 				}
 				off, n, ty := pickRange(bb)
-				if rng.Intn(2) == 0 {
+				if rng.Intn(2) == 0 || !anyBits[ty] {
 					seed++
 					sc.Ops = append(sc.Ops, Op{Op: "h2d", B: bb + 1, Off: off, N: n, Ty: ty, Seed: seed, Ctx: ctxOf[bb], Q: q})
-				} else {
+				}
+				if rng.Intn(2) == 0 || !anyBits[ty] {
 					sc.Ops = append(sc.Ops, Op{Op: "d2h", B: bb + 1, Off: off, N: n, Ty: ty, Ctx: ctxOf[bb], Q: q})
 				}
 			}
@@ -255,6 +266,9 @@ func randAPI(rng *rand.Rand, plat string, size int, tag string) *Scenario {
 			sc.Ops = append(sc.Ops, Op{Op: "free", B: b + 1})
 		default:
 			off, n, ty := pickRange(b)
+			if !anyBits[ty] {
+				ty = "u8"
+			}
 			sc.Ops = append(sc.Ops, Op{Op: "d2h", B: b + 1, Off: off, N: n, Ty: ty, Ctx: ctx})
 		}
 	}
